@@ -1162,7 +1162,10 @@ class Executor:
                     return sym == "!="
                 eq = b_and(*[self.rich_compare("==", x, y, st, node) for x, y in zip(a, b)])
                 return eq if sym == "==" else b_not(eq)
-            strict = {"<": "<", "<=": "<", ">": ">", ">=": ">"}[sym]
+            # CPython (tuplerichcompare / list_richcompare): the first position whose items are not == decides, and
+            # those two items are compared with the SAME operator (`<=` stays `<=`): a sentinel's __le__/__ge__ is
+            # what runs for `key_a <= key_b`, not its __lt__
+            strict = sym
             if len(a) == len(b):
                 res = sym in ("<=", ">=")
             elif len(a) < len(b):
